@@ -26,6 +26,9 @@ HEADERS = [
     # the export list of a hand-written module: a string literal equal to the simple name of the definition, before it
     '__all__ = ["@NAME@"]\n',
     '"""The public names."""\n\n__all__ = ["helper_fn", "@NAME@"]\n\nLABEL = "@NAME@"\n',
+    # a namesake one level down, before the definition: a nested class / a class attribute with the simple name
+    'class Registry(object):\n    """Holds the known ones."""\n\n    class @NAME@(object):\n        """A nested namesake."""\n\n        kind = "inner"\n\n',
+    'class Registry(object):\n    """Holds the known ones."""\n\n    @NAME@: type = object\n\n',
 ]
 
 
